@@ -66,6 +66,9 @@ func main() {
 		for _, l := range ctx.Inlined {
 			fmt.Println("inlined:", l)
 		}
+		for _, l := range ctx.Unrolled {
+			fmt.Println("normalised:", l)
+		}
 		for _, fn := range ctx.ModFuncs {
 			if strings.Contains(fn.String(), strings.TrimPrefix(*dump, "ssa:")) {
 				fn.WriteTo(os.Stdout)
